@@ -107,9 +107,9 @@ def _cls_grid(case):
 SUBCHECKS = [
     SubCheck("forward_psf_conv", check_forward, strategy=T.geo_cases(kinds=False), nontrivial=_nt_geo, classes=_cls_geo,
              quick=3000, thorough=300000, shards_quick=4, shards_thorough=16, seq_groups=[["ell"], ["prj", "zone", "lon"], ["lat"]],
-             rule="geo2grid psf within 2e-8 and convergence within 1e-9 deg of the exact projection's derivative; zero on the axes"),
+             fresh=(8, 64, 3), rule="geo2grid psf within 2e-8 and convergence within 1e-9 deg of the exact projection's derivative; zero on the axes"),
     SubCheck("inverse_psf_conv", check_inverse, strategy=T.grid_cases(), nontrivial=_nt_grid, classes=_cls_grid,
              quick=3000, thorough=300000, shards_quick=4, shards_thorough=16,
              seq_groups=[["ell"], ["prj", "zone"], ["east"], ["north", "hemi"]],
-             rule="grid2geo psf / convergence vs the exact derivative at the returned point; forward at that point reports the same"),
+             fresh=(8, 64, 3), rule="grid2geo psf / convergence vs the exact derivative at the returned point; forward at that point reports the same"),
 ]
